@@ -3,13 +3,6 @@ import QbeeModel.Lemmas.Digits
 namespace Qbee.Data
 open Qbee.NumFmt
 
-/-- split at commas: the first field and the remaining fields -/
-def split1 : Str → Str × List Str
-  | [] => ([], [])
-  | c :: r => if c = ',' then ([], (split1 r).1 :: (split1 r).2) else (c :: (split1 r).1, (split1 r).2)
-
-def splitCommas (s : Str) : List Str := (split1 s).1 :: (split1 s).2
-
 /-- what an unquoted field denotes: blank -> Empty, else the text trimmed -/
 def fieldItem (f : Str) : DItem :=
   if f.all isBT then .empty else .str (strip (f.dropWhile isBT))
